@@ -101,13 +101,15 @@ Definition xwfb (c : ttab) : bool :=
 Definition x_empty (c : ttab) : bool :=
   match x_oids c, x_sids c with [], _ => true | _, [] => true | _, _ => false end.
 
-Record opts := mkO { header_key : option text; header_value : option text }.
-Definition no_opts : opts := mkO None None.
+(* ocn = observation_column_name, the corner cell of the header line (default "#OTU ID") *)
+Record opts := mkO3 { header_key : option text; header_value : option text; ocn : text }.
 
 (* "# Constructed from biom file" and "#OTU ID" *)
 Definition CONSTRUCTED : text :=
   [35;32;67;111;110;115;116;114;117;99;116;101;100;32;102;114;111;109;32;98;105;111;109;32;102;105;108;101].
 Definition OCN : text := [35;79;84;85;32;73;68].
+Definition mkO (hk hv : option text) : opts := mkO3 hk hv OCN.
+Definition no_opts : opts := mkO None None.
 
 Definition opt_truthy (o : option text) : bool := match o with Some (_ :: _) => true | _ => false end.
 Definition is_some {A} (o : option A) : bool := match o with Some _ => true | None => false end.
@@ -144,8 +146,8 @@ Section Tsv.
   Definition header_line (c : ttab) (o : opts) : text :=
     let samp := join TAB (x_sids c) in
     match header_value o with
-    | Some ((_ :: _) as hv) => OCN ++ [TAB] ++ samp ++ [TAB] ++ hv
-    | _ => OCN ++ [TAB] ++ samp
+    | Some ((_ :: _) as hv) => ocn o ++ [TAB] ++ samp ++ [TAB] ++ hv
+    | _ => ocn o ++ [TAB] ++ samp
     end.
 
   Definition to_tsv (c : ttab) (o : opts) : result (list text) :=
